@@ -218,3 +218,500 @@ Proof.
   rewrite (nth_map_seq (fun i => forward_i P (nth i (mean_raw P) 0) i)) by exact Hi.
   apply forward_i_close; [apply HV|apply mean_raw_nth; assumption].
 Qed.
+
+(* ====================================================================== inversion *)
+Lemma knth_pos_lt i k : (0 < knth i k)%Z -> (i < length k)%nat.
+Proof.
+  intros H. destruct (Nat.lt_ge_cases i (length k)) as [L|L]; [exact L|].
+  unfold knth in H. rewrite nth_overflow in H by exact L. lia.
+Qed.
+
+Lemma qsum_pos_member l y : (forall x, In x l -> 0 <= x) -> In y l -> 0 < y -> 0 < qsum l.
+Proof.
+  induction l as [|x l IH]; intros Hnn HI Hy; [destruct HI|]. cbn [qsum].
+  assert (Hx : 0 <= x) by (apply Hnn; left; reflexivity).
+  assert (Hl : 0 <= qsum l) by (apply qsum_nonneg; intros z Hz; apply Hnn; right; exact Hz).
+  destruct HI as [->|HI].
+  - apply Qlt_le_trans with (y + 0); [rewrite Qplus_0_r; exact Hy|]. apply Qplus_le_r. exact Hl.
+  - assert (0 < qsum l) by (apply IH; [intros z Hz; apply Hnn; right; exact Hz|exact HI|exact Hy]).
+    apply Qlt_le_trans with (0 + qsum l); [rewrite Qplus_0_l; exact H|]. apply Qplus_le_l. exact Hx.
+Qed.
+
+Lemma Qpos_neq x : 0 < x -> ~ x == 0.
+Proof. intros H E. rewrite E in H. apply (Qlt_irrefl 0). exact H. Qed.
+
+Section InvSingle.
+  Variable i : nat.
+  Variable avg : Q.
+  Hypothesis Havg : ~ avg == 0.
+  Let g (kp : key * Q) : key * Q := (kdec i (fst kp), Qred (kq i (fst kp) * snd kp / avg)).
+
+  Lemma inv_scan_forward l :
+    Forall (fun kp => (0 < knth i (fst kp))%Z) l -> inv_scan (map g l) i = None.
+  Proof.
+    induction 1 as [|[k p] l Hk _ IH]; [reflexivity|]. cbn [map g fst snd inv_scan]. cbn [fst] in Hk.
+    pose proof (knth_pos_lt i k Hk) as HL.
+    rewrite kdec_length. destruct (Nat.leb_spec (length k) i) as [L|_]; [lia|].
+    rewrite knth_kdec by exact HL. destruct (Z.eqb_spec (knth i k - 1 + 1) 0) as [E|_]; [lia|]. exact IH.
+  Qed.
+
+  Lemma inv_term_forward k p : (0 < knth i k)%Z -> inv_term i (g (k, p)) == p / avg.
+  Proof.
+    intros Hk. unfold inv_term, g. cbn [fst snd]. rewrite Qred_correct.
+    rewrite knth_kdec by (apply knth_pos_lt; exact Hk).
+    replace (knth i k - 1 + 1)%Z with (knth i k) by lia. unfold kq. field. split; [exact Havg|].
+    intros E. unfold Qeq in E. cbn in E. lia.
+  Qed.
+
+  Lemma bottom_forward l :
+    Forall (fun kp => (0 < knth i (fst kp))%Z) l ->
+    qsum (map (inv_term i) (map g l)) == qsum (dvals l) / avg.
+  Proof.
+    intros HF. unfold dvals. rewrite <- (qsum_map_div snd). rewrite map_map.
+    apply qsum_map_ext. intros [k p] Hkp. rewrite Forall_forall in HF. specialize (HF (k, p) Hkp). cbn [fst] in HF.
+    rewrite inv_term_forward by exact HF. reflexivity.
+  Qed.
+
+  Lemma invert_single_forward l :
+    Forall (fun kp => (0 < knth i (fst kp))%Z) l -> l <> [] -> ~ qsum (dvals l) == 0 ->
+    exists d, invert_single (map g l) i = Ok d /\ dkeys d = dkeys l /\
+              Forall2 (fun x y => x == y / qsum (dvals l)) (dvals d) (dvals l).
+  Proof.
+    intros HF Hne HS. unfold invert_single. rewrite inv_scan_forward by exact HF.
+    destruct (map g l) as [|x m] eqn:Em; [destruct l; [congruence|discriminate]|]. rewrite <- Em.
+    assert (Hb : Qred (qsum (map (inv_term i) (map g l))) == qsum (dvals l) / avg)
+      by (rewrite Qred_correct; apply bottom_forward; exact HF).
+    assert (Hb0 : ~ Qred (qsum (map (inv_term i) (map g l))) == 0).
+    { rewrite Hb. intros E. apply HS. apply (Qmult_inj_r _ _ (/ avg)).
+      - intros E2. apply Havg. rewrite <- (Qinv_involutive avg), E2. reflexivity.
+      - unfold Qdiv in E. rewrite E. ring. }
+    apply Qeq_bool_false in Hb0. rewrite Hb0.
+    set (B := Qred (qsum (map (inv_term i) (map g l)))) in *. clearbody B.
+    eexists. split; [reflexivity|]. split.
+    - unfold dkeys. rewrite !map_map. apply map_ext. intros [k p]. cbn. apply kinc_kdec.
+    - unfold dvals in *. rewrite !map_map. cbn [snd].
+      clear Em Hne Hb0. set (S := qsum (map snd l)) in *. clearbody S.
+      induction HF as [|[k p] l Hk _ IH]; [constructor|]. cbn [map]. constructor; [|exact IH].
+      rewrite Qred_correct, Hb, inv_term_forward by exact Hk. cbn [snd].
+      field. split; [exact HS|exact Havg].
+  Qed.
+End InvSingle.
+
+Lemma Forall2_Forall_r {A B} (R : A -> B -> Prop) l1 l2 :
+  Forall2 R l1 l2 -> Forall (fun b => exists a, In a l1 /\ R a b) l2.
+Proof.
+  induction 1 as [|a b l1 l2 H _ IH]; constructor.
+  - exists a. split; [left; reflexivity|exact H].
+  - eapply Forall_impl; [|exact IH]. cbn. intros b' [a' [Ha HR]]. exists a'. split; [right; exact Ha|exact HR].
+Qed.
+
+Lemma enum_from_In {A} (l : list A) j i x :
+  In (i, x) (enum_from j l) -> (j <= i)%nat /\ nth_error l (i - j) = Some x.
+Proof.
+  revert j. induction l as [|y l IH]; intros j H; [destruct H|]. cbn [enum_from] in H.
+  destruct H as [E|H].
+  - injection E as -> ->. rewrite Nat.sub_diag. split; [lia|reflexivity].
+  - apply IH in H. destruct H as [H1 H2]. split; [lia|].
+    replace (i - j)%nat with (S (i - S j)) by lia. exact H2.
+Qed.
+
+Lemma nget_app_fresh {A} (m : list (nat * A)) n a :
+  ~ In n (map fst m) -> nset m n a = m ++ [(n, a)].
+Proof.
+  induction m as [|[n' b] m IH]; intros H; [reflexivity|]. cbn [nset].
+  destruct (Nat.eqb_spec n n') as [->|Hne]; [exfalso; apply H; left; reflexivity|].
+  cbn [app]. rewrite IH; [reflexivity|]. intros HI. apply H. right. exact HI.
+Qed.
+
+Lemma Forall2_In_l {A B} (R : A -> B -> Prop) l1 l2 a :
+  Forall2 R l1 l2 -> In a l1 -> exists b, In b l2 /\ R a b.
+Proof.
+  induction 1 as [|x y l1 l2 H _ IH]; intros HI; [destruct HI|]. destruct HI as [->|HI].
+  - exists y. split; [left; reflexivity|exact H].
+  - destruct (IH HI) as [b [Hb HR]]. exists b. split; [right; exact Hb|exact HR].
+Qed.
+
+Lemma Forall2_In_r {A B} (R : A -> B -> Prop) l1 l2 b :
+  Forall2 R l1 l2 -> In b l2 -> exists a, In a l1 /\ R a b.
+Proof.
+  induction 1 as [|x y l1 l2 H _ IH]; intros HI; [destruct HI|]. destruct HI as [->|HI].
+  - exists x. split; [left; reflexivity|exact H].
+  - destruct (IH HI) as [a [Ha HR]]. exists a. split; [right; exact Ha|exact HR].
+Qed.
+
+Lemma enum_from_nth {A} (l : list A) j i x : nth_error l i = Some x -> In ((j + i)%nat, x) (enum_from j l).
+Proof.
+  revert j i. induction l as [|y l IH]; intros j [|i] H; cbn in H; try discriminate.
+  - injection H as ->. rewrite Nat.add_0_r. left. reflexivity.
+  - cbn [enum_from]. right. replace (j + S i)%nat with (S j + i)%nat by lia. apply IH. exact H.
+Qed.
+
+Section Inverse.
+  Variable P : dict.
+  Hypothesis HV : valid_jdd P.
+  Hypothesis HT : (0 < first_len P)%nat.
+  Hypothesis Hpos : Forall (fun kp => 0 < snd kp) P.
+  Variable kstar : key.
+  Hypothesis Hstar : In kstar (dkeys P) /\ Forall (fun x => (0 < x)%Z) kstar.
+  Let T := first_len P.
+
+  Definition FP (i : nat) : dict := filter (fun kp => Z.ltb 0 (knth i (fst kp))) P.
+  Definition SS (i : nat) : Q := qsum (dvals (FP i)).
+
+  Lemma P_dgetq k p : In (k, p) P -> dgetq P k = p.
+  Proof. intros H. unfold dgetq. rewrite (In_dget P k p); [reflexivity|apply HV|exact H]. Qed.
+
+  Lemma P_key_len k : In k (dkeys P) -> length k = T.
+  Proof. intros H. destruct HV as [_ [_ HF]]. rewrite Forall_forall in HF. apply HF. exact H. Qed.
+
+  Lemma kstar_pos i : (i < T)%nat -> (0 < knth i kstar)%Z.
+  Proof.
+    intros Hi. destruct Hstar as [H1 H2]. rewrite Forall_forall in H2. apply H2. unfold knth.
+    apply nth_In. rewrite (P_key_len kstar H1). exact Hi.
+  Qed.
+
+  Lemma FP_pos i : Forall (fun kp => (0 < knth i (fst kp))%Z) (FP i).
+  Proof. apply Forall_forall. intros kp H. apply filter_In in H. apply Z.ltb_lt. apply H. Qed.
+
+  Lemma FP_sub i kp : In kp (FP i) -> In kp P.
+  Proof. intros H. apply filter_In in H. apply H. Qed.
+
+  Lemma FP_star i : (i < T)%nat -> exists p, In (kstar, p) (FP i) /\ 0 < p.
+  Proof.
+    intros Hi. destruct Hstar as [H1 _]. apply in_map_iff in H1. destruct H1 as [[k p] [E H1]]. cbn in E. subst k.
+    exists p. split.
+    - apply filter_In. split; [exact H1|]. apply Z.ltb_lt. cbn [fst]. apply kstar_pos. exact Hi.
+    - rewrite Forall_forall in Hpos. apply (Hpos (kstar, p) H1).
+  Qed.
+
+  Lemma SS_pos i : (i < T)%nat -> 0 < SS i.
+  Proof.
+    intros Hi. destruct (FP_star i Hi) as [p [H1 H2]]. unfold SS, dvals.
+    apply (qsum_pos_member _ p); [|apply in_map_iff; exists (kstar, p); split; [reflexivity|exact H1]|exact H2].
+    intros x Hx. apply in_map_iff in Hx. destruct Hx as [kp [<- Hkp]]. apply Qlt_le_weak.
+    rewrite Forall_forall in Hpos. apply Hpos. apply (FP_sub i). exact Hkp.
+  Qed.
+
+  Lemma mean_pos i : (i < T)%nat -> 0 < mean_spec P i.
+  Proof.
+    intros Hi. destruct (FP_star i Hi) as [p [H1 H2]]. unfold mean_spec.
+    apply (qsum_pos_member _ (kq i kstar * p)).
+    - intros x Hx. apply in_map_iff in Hx. destruct Hx as [[k q] [<- Hkp]]. cbn [fst snd].
+      apply Qmult_le_0_compat.
+      + unfold kq. change 0 with (inject_Z 0). rewrite <- Zle_Qle. apply knth_nonneg.
+        destruct HV as [_ [_ HF]]. rewrite Forall_forall in HF. apply HF. apply in_map_iff. exists (k, q). split; [reflexivity|exact Hkp].
+      + apply Qlt_le_weak. rewrite Forall_forall in Hpos. apply (Hpos (k, q) Hkp).
+    - apply in_map_iff. exists (kstar, p). split; [reflexivity|]. apply (FP_sub i). exact H1.
+    - apply Qmult_lt_0_compat; [|exact H2]. unfold kq. change 0 with (inject_Z 0). rewrite <- Zlt_Qlt.
+      apply kstar_pos. exact Hi.
+  Qed.
+
+  Lemma mean_defined_P : mean_defined P.
+  Proof. intros i Hi _. apply Qpos_neq. apply mean_pos. exact Hi. Qed.
+
+  (* what a good observation for index i looks like *)
+  Definition Good (i : nat) (d : dict) : Prop :=
+    dkeys d = dkeys (FP i) /\ Forall (fun kv => snd kv == dgetq P (fst kv) / SS i) d.
+
+  Lemma zip_good (d l : dict) s :
+    dkeys d = dkeys l -> Forall2 (fun x y => x == y / s) (dvals d) (dvals l) ->
+    Forall (fun kp => dgetq P (fst kp) = snd kp) l ->
+    Forall (fun kv => snd kv == dgetq P (fst kv) / s) d.
+  Proof.
+    revert l. induction d as [|[k v] d IH]; intros [|[k' p] l] HK HVs HL; try discriminate; [constructor|].
+    cbn in HK. injection HK as -> HK. unfold dvals in HVs. cbn [map snd] in HVs.
+    inversion HVs as [|? ? ? ? Hv HVs']; subst. inversion HL as [|? ? Hp HL']; subst.
+    constructor; [|apply (IH l); assumption]. cbn [fst snd] in *. rewrite Hp. exact Hv.
+  Qed.
+
+  Lemma invert_single_good i avg :
+    (i < T)%nat -> avg == mean_spec P i -> exists d, invert_single (forward_i P avg i) i = Ok d /\ Good i d.
+  Proof.
+    intros Hi Ha.
+    assert (Havg : ~ avg == 0) by (rewrite Ha; apply Qpos_neq, mean_pos; exact Hi).
+    destruct (invert_single_forward i avg Havg (FP i) (FP_pos i)) as [d [H1 [H2 H3]]].
+    - destruct (FP_star i Hi) as [p [H _]]. intros E. rewrite E in H. destruct H.
+    - apply Qpos_neq. apply SS_pos. exact Hi.
+    - exists d. split; [exact H1|]. split; [exact H2|].
+      apply (zip_good d (FP i) (SS i) H2 H3). apply Forall_forall. intros [k p] Hkp. cbn [fst snd].
+      apply P_dgetq. apply (FP_sub i). exact Hkp.
+  Qed.
+
+  (* ---- the observations ---- *)
+  Variable qks : list (nat * dict).
+  Variable names : list nat.
+  Hypothesis HN : NoDup names.
+  Hypothesis HL : length names = T.
+  Hypothesis Hq : forall i name, nth_error names i = Some name ->
+                  exists avg, avg == mean_spec P i /\ nget qks name = Some (forward_i P avg i).
+
+  Lemma observations_ok rest : forall j acc,
+    (forall i name, nth_error rest i = Some name -> nth_error names (j + i) = Some name) ->
+    NoDup (map fst acc ++ rest) ->
+    exists obs', observations qks (enum_from j rest) acc = Ok (acc ++ obs') /\
+                 Forall2 (fun it o => fst o = snd it /\ Good (fst it) (snd o)) (enum_from j rest) obs'.
+  Proof.
+    induction rest as [|name rest IH]; intros j acc Hn Hnd.
+    - exists []. rewrite app_nil_r. split; [reflexivity|constructor].
+    - cbn [enum_from observations].
+      assert (Hj : nth_error names j = Some name) by (rewrite <- (Nat.add_0_r j); apply Hn; reflexivity).
+      destruct (Hq j name Hj) as [avg [Ha Hg]]. rewrite Hg.
+      assert (HjT : (j < T)%nat) by (rewrite <- HL; apply nth_error_Some; congruence).
+      destruct (invert_single_good j avg HjT Ha) as [d [Hd HG]]. rewrite Hd.
+      assert (Hfresh : ~ In name (map fst acc)).
+      { intros HI. apply NoDup_remove_2 in Hnd. apply Hnd. apply in_or_app. left. exact HI. }
+      rewrite (nget_app_fresh acc name d Hfresh).
+      destruct (IH (S j) (acc ++ [(name, d)])) as [obs' [H1 H2]].
+      + intros i nm Hi. replace (S j + i)%nat with (j + S i)%nat by lia. apply Hn. exact Hi.
+      + rewrite map_app. cbn [map fst]. rewrite <- app_assoc. cbn [app].
+        apply NoDup_remove_1 in Hnd as Hnd1.
+        apply NoDup_remove_2 in Hnd as Hnd2.
+        clear - Hnd1 Hnd2. revert Hnd1 Hnd2. generalize (map fst acc) as l. intros l.
+        induction l as [|x l IHl]; cbn [app]; intros H1 H2.
+        * constructor; assumption.
+        * inversion H1; subst. constructor.
+          -- intros HI. apply in_app_or in HI. destruct HI as [HI|[HI|HI]].
+             ++ apply H3. apply in_or_app. left. exact HI.
+             ++ apply H2. left. symmetry. exact HI.
+             ++ apply H3. apply in_or_app. right. exact HI.
+          -- apply IHl; [exact H4|]. intros HI. apply H2. right. exact HI.
+      + exists ((name, d) :: obs'). split.
+        * rewrite H1, <- app_assoc. reflexivity.
+        * constructor; [split; [reflexivity|exact HG]|exact H2].
+  Qed.
+
+  (* ---- rescaling to the reference topology ---- *)
+  Definition Fv (k : key) : Q := dgetq P k / SS 0.
+  Definition Fent (kv : key * Q) : Prop := snd kv == Fv (fst kv).
+
+  Lemma P_val_pos k : In k (dkeys P) -> 0 < dgetq P k.
+  Proof.
+    intros H. apply in_map_iff in H. destruct H as [[k' p] [E H]]. cbn in E. subst k'.
+    rewrite (P_dgetq k p H). rewrite Forall_forall in Hpos. apply (Hpos (k, p) H).
+  Qed.
+
+  Lemma dkeys_dmapv f m : dkeys (dmapv f m) = dkeys m.
+  Proof. unfold dkeys, dmapv. rewrite map_map. reflexivity. Qed.
+
+  Lemma FP_keys_sub i k : In k (dkeys (FP i)) -> In k (dkeys P) /\ (0 < knth i k)%Z.
+  Proof.
+    intros H. apply in_map_iff in H. destruct H as [[k' p] [E H]]. cbn in E. subst k'.
+    apply filter_In in H. destruct H as [H1 H2]. split; [apply in_map_iff; exists (k, p); split; [reflexivity|exact H1]|].
+    apply Z.ltb_lt. exact H2.
+  Qed.
+
+  Variable ref : nat.
+  Definition Inv (o : nat * dict) : Prop :=
+    exists i, (i < T)%nat /\ (fst o = ref -> i = 0%nat) /\ Good i (snd o).
+
+  Lemma scale_ok ck base obs :
+    base == dgetq P ck / SS 0 ->
+    Forall Inv obs -> (forall o, In o obs -> In ck (dkeys (snd o))) ->
+    exists sc, scale_obs base ck ref obs = Ok sc /\
+               Forall2 (fun o s => dkeys (snd s) = dkeys (snd o) /\ Forall Fent (snd s)) obs sc.
+  Proof.
+    intros Hb HI Hck. induction obs as [|[t d] obs IH].
+    - exists []. split; [reflexivity|constructor].
+    - inversion HI as [|? ? [i [Hi [Hr [HG1 HG2]]]] HI']; subst. cbn [fst snd] in *.
+      destruct (IH HI') as [sc [H1 H2]]; [intros o Ho; apply Hck; right; exact Ho|].
+      cbn [scale_obs]. destruct (Nat.eqb_spec ref t) as [E|Hne].
+      + rewrite H1. eexists. split; [reflexivity|]. constructor; [|exact H2]. cbn [snd]. split; [reflexivity|].
+        rewrite (Hr (eq_sym E)) in HG2. exact HG2.
+      + assert (Hckd : In ck (dkeys d)) by (apply (Hck (t, d)); left; reflexivity).
+        assert (HckP : In ck (dkeys P)) by (rewrite HG1 in Hckd; apply (FP_keys_sub i ck Hckd)).
+        assert (Hx : dgetq d ck == dgetq P ck / SS i).
+        { apply (Forall_dgetq (fun k => dgetq P k / SS i) d ck HG2 Hckd). }
+        pose proof (Qpos_neq _ (P_val_pos ck HckP)) as Hp0.
+        pose proof (Qpos_neq _ (SS_pos i Hi)) as Hs0.
+        pose proof (Qpos_neq _ (SS_pos 0%nat HT)) as Hs00.
+        assert (Hx0 : ~ dgetq d ck == 0).
+        { rewrite Hx. intros E. apply Hp0. apply (Qmult_inj_r _ _ (/ SS i)).
+          - intros E2. apply Hs0. rewrite <- (Qinv_involutive (SS i)), E2. reflexivity.
+          - unfold Qdiv in E. rewrite E. ring. }
+        apply Qeq_bool_false in Hx0 as Hx0b. rewrite Hx0b, H1. eexists. split; [reflexivity|].
+        constructor; [|exact H2]. cbn [snd]. split; [apply dkeys_dmapv|].
+        unfold dmapv. apply Forall_forall. intros kv Hkv. apply in_map_iff in Hkv.
+        destruct Hkv as [[k v] [<- Hkv]]. unfold Fent, Fv. cbn [fst snd]. rewrite Qred_correct.
+        rewrite Forall_forall in HG2. specialize (HG2 (k, v) Hkv). cbn [fst snd] in HG2.
+        rewrite HG2, Hb, Hx. field. repeat split; assumption.
+  Qed.
+
+  (* ---- merging ---- *)
+  Lemma merge_fold_inv (sc : list (nat * dict)) : forall acc : dict,
+    Forall Fent acc -> NoDup (dkeys acc) -> Forall (fun s : nat * dict => Forall Fent (snd s)) sc ->
+    let m := fold_left (fun (P : dict) (o : nat * dict) => dupdate P (snd o)) sc acc in
+    Forall Fent m /\ NoDup (dkeys m) /\
+    (forall k, In k (dkeys m) <-> In k (dkeys acc) \/ exists s, In s sc /\ In k (dkeys (snd s))).
+  Proof.
+    induction sc as [|s sc IH]; intros acc H1 H2 H3; cbn [fold_left].
+    - split; [exact H1|]. split; [exact H2|]. intros k. split; [tauto|]. intros [H|[s [[] _]]]. exact H.
+    - inversion H3 as [|? ? H3a H3b]; subst.
+      destruct (IH (dupdate acc (snd s)) (dupdate_Forall _ _ _ H1 H3a) (dupdate_NoDup _ _ H2) H3b) as [A [B C]].
+      split; [exact A|]. split; [exact B|]. intros k. rewrite C, dupdate_keys. split.
+      + intros [[H|H]|[s' [Hs' H]]]; [left; exact H|right; exists s; split; [left; reflexivity|exact H]|].
+        right. exists s'. split; [right; exact Hs'|exact H].
+      + intros [H|[s' [[->|Hs'] H]]]; [left; left; exact H|left; right; exact H|].
+        right. exists s'. split; assumption.
+  Qed.
+
+  (* ---- non-zero keys ---- *)
+  Lemma knonzero_iff k : length k = T -> Forall (fun x => (0 <= x)%Z) k ->
+    (knonzero k = true <-> exists i, (i < T)%nat /\ (0 < knth i k)%Z).
+  Proof.
+    intros HLk Hnn. unfold knonzero. rewrite existsb_exists. split.
+    - intros [x [Hx H]]. apply negb_true_iff, Z.eqb_neq in H.
+      destruct (In_nth k x 0%Z Hx) as [i [Hi E]]. exists i. split; [lia|]. unfold knth. rewrite E.
+      rewrite Forall_forall in Hnn. specialize (Hnn x Hx). lia.
+    - intros [i [Hi H]]. exists (knth i k). split; [unfold knth; apply nth_In; lia|].
+      apply negb_true_iff, Z.eqb_neq. lia.
+  Qed.
+
+  (* ---- assembling ---- *)
+  Hypothesis Href : nth_error names 0 = Some ref.
+
+  Lemma spec_inverse_keys : dkeys (spec_inverse P) = filter knonzero (dkeys P).
+  Proof.
+    unfold spec_inverse. rewrite <- (dkeys_filter knonzero). unfold dkeys. rewrite map_map. reflexivity.
+  Qed.
+
+  Lemma spec_inverse_ent :
+    Forall (fun kv => snd kv == dgetq P (fst kv) / nonzero_mass P) (spec_inverse P).
+  Proof.
+    unfold spec_inverse. apply Forall_forall. intros kv H. apply in_map_iff in H.
+    destruct H as [[k p] [<- H]]. cbn [fst snd]. apply filter_In in H. destruct H as [H _].
+    rewrite (P_dgetq k p H). reflexivity.
+  Qed.
+
+  Lemma nonzero_mass_Fv :
+    qsum (map Fv (filter knonzero (dkeys P))) == nonzero_mass P / SS 0.
+  Proof.
+    unfold nonzero_mass, dvals. rewrite <- (qsum_map_div snd).
+    rewrite <- (dkeys_filter knonzero). unfold dkeys. rewrite map_map.
+    apply qsum_map_ext. intros [k p] H. apply filter_In in H. destruct H as [H _].
+    unfold Fv. cbn [fst snd]. rewrite (P_dgetq k p H). reflexivity.
+  Qed.
+
+  Lemma kstar_nonzero : knonzero kstar = true.
+  Proof.
+    destruct Hstar as [H1 H2]. apply (knonzero_iff kstar (P_key_len kstar H1)).
+    - eapply Forall_impl; [|exact H2]. cbn. intros; lia.
+    - exists 0%nat. split; [exact HT|apply kstar_pos; exact HT].
+  Qed.
+
+  Lemma nonzero_mass_pos : 0 < nonzero_mass P.
+  Proof.
+    destruct Hstar as [H1 _]. apply in_map_iff in H1. destruct H1 as [[k p] [E H1]]. cbn in E. subst k.
+    unfold nonzero_mass, dvals. apply (qsum_pos_member _ p).
+    - intros x Hx. apply in_map_iff in Hx. destruct Hx as [kp [<- Hkp]]. apply filter_In in Hkp.
+      apply Qlt_le_weak. rewrite Forall_forall in Hpos. apply Hpos. apply Hkp.
+    - apply in_map_iff. exists (kstar, p). split; [reflexivity|]. apply filter_In. split; [exact H1|apply kstar_nonzero].
+    - rewrite Forall_forall in Hpos. apply (Hpos (kstar, p) H1).
+  Qed.
+
+  Theorem invert_correct :
+    exists l, invert_all qks names = Ok l /\ l <> [] /\
+      forall ck r, In (ck, r) l -> exists d, r = Ok d /\ dict_close 0 d (spec_inverse P).
+  Proof.
+    destruct (observations_ok names 0%nat []) as [obs [HO1 HO2]].
+    { intros i name H. exact H. }
+    { cbn. exact HN. }
+    cbn [app] in HO1. unfold invert_all. rewrite HO1.
+    destruct names as [|n0 names'] eqn:En; [discriminate|]. cbn in Href. injection Href as ->.
+    rewrite <- En in *.
+    (* invariant on every observation *)
+    assert (HInv : Forall Inv obs).
+    { apply Forall_forall. intros o Ho. destruct (Forall2_In_r _ _ _ o HO2 Ho) as [[i nm] [Hit [E HG]]].
+      cbn [fst snd] in *. apply enum_from_In in Hit. destruct Hit as [_ Hit]. rewrite Nat.sub_0_r in Hit.
+      exists i. split; [rewrite <- HL; apply nth_error_Some; congruence|]. split; [|exact HG].
+      intros Er. rewrite NoDup_nth_error in HN. apply HN.
+      - apply nth_error_Some. congruence.
+      - rewrite Hit, En. cbn. congruence. }
+    assert (Hcover : forall i, (i < T)%nat -> exists o, In o obs /\ Good i (snd o)).
+    { intros i Hi. destruct (nth_error names i) as [nm|] eqn:E; [|apply nth_error_None in E; lia].
+      pose proof (enum_from_nth names 0%nat i nm E) as Hin. cbn [plus] in Hin.
+      destruct (Forall2_In_l _ _ _ _ HO2 Hin) as [o [Ho [_ HG]]]. exists o. split; assumption. }
+    (* the first observation is the reference *)
+    destruct obs as [|[t0 d0] obs'].
+    { rewrite En in HO2. cbn in HO2. inversion HO2. }
+    assert (Ht0 : t0 = ref /\ Good 0%nat d0).
+    { rewrite En in HO2. cbn [enum_from] in HO2. inversion HO2 as [|? ? ? ? [E HG] _]; subst. cbn in E, HG. split; assumption. }
+    destruct Ht0 as [-> HG0].
+    (* common keys *)
+    assert (Hstar_in : forall i, (i < T)%nat -> In kstar (dkeys (FP i))).
+    { intros i Hi. destruct (FP_star i Hi) as [p [H _]]. apply in_map_iff. exists (kstar, p). split; [reflexivity|exact H]. }
+    assert (Hck_all : forall ck, In ck (common_keys ((ref, d0) :: obs')) ->
+                                 forall o, In o ((ref, d0) :: obs') -> In ck (dkeys (snd o))).
+    { intros ck H o Ho. cbn [common_keys] in H. apply filter_In in H. destruct H as [H1 H2].
+      destruct Ho as [<-|Ho]; [exact H1|]. rewrite forallb_forall in H2. apply dmem_In. apply H2. exact Ho. }
+    assert (Hstar_ck : In kstar (common_keys ((ref, d0) :: obs'))).
+    { cbn [common_keys]. apply filter_In. split.
+      - destruct HG0 as [E _]. rewrite E. apply Hstar_in. exact HT.
+      - apply forallb_forall. intros o Ho. apply dmem_In.
+        rewrite Forall_forall in HInv. destruct (HInv o (or_intror Ho)) as [i [Hi [_ [E _]]]]. rewrite E. apply Hstar_in. exact Hi. }
+    destruct (common_keys ((ref, d0) :: obs')) as [|ck0 cks] eqn:Ecks; [destruct Hstar_ck|].
+    eexists. split; [reflexivity|]. split; [discriminate|].
+    intros ck r Hin. apply in_map_iff in Hin. destruct Hin as [ck' [E Hck]]. injection E as -> <-.
+    specialize (Hck_all ck Hck).
+    (* invert_with *)
+    unfold invert_with. cbn [nget]. rewrite Nat.eqb_refl.
+    assert (HckP : In ck (dkeys P)).
+    { destruct HG0 as [E _]. specialize (Hck_all (ref, d0) (or_introl eq_refl)). cbn [snd] in Hck_all.
+      rewrite E in Hck_all. apply (FP_keys_sub 0%nat ck Hck_all). }
+    assert (Hbase : dgetq d0 ck == dgetq P ck / SS 0).
+    { destruct HG0 as [_ HF]. apply (Forall_dgetq (fun k => dgetq P k / SS 0) d0 ck HF).
+      apply (Hck_all (ref, d0)). left. reflexivity. }
+    destruct (scale_ok ck (dgetq d0 ck) ((ref, d0) :: obs') Hbase HInv Hck_all) as [sc [Hsc1 Hsc2]].
+    rewrite Hsc1.
+    assert (HscF : Forall (fun s : nat * dict => Forall Fent (snd s)) sc).
+    { apply Forall_forall. intros s Hs. destruct (Forall2_In_r _ _ _ s Hsc2 Hs) as [o [_ [_ H]]]. exact H. }
+    destruct (merge_fold_inv sc [] (Forall_nil _) (NoDup_nil _) HscF) as [HmF [HmN HmK]].
+    fold (merge sc) in HmF, HmN, HmK.
+    (* key set of the merge *)
+    assert (Hkeys : forall k, In k (dkeys (merge sc)) <-> In k (filter knonzero (dkeys P))).
+    { intros k. rewrite HmK. cbn [dkeys map]. split.
+      - intros [[]|[s [Hs Hk]]]. destruct (Forall2_In_r _ _ _ s Hsc2 Hs) as [o [Ho [E _]]]. rewrite E in Hk.
+        rewrite Forall_forall in HInv. destruct (HInv o Ho) as [i [Hi [_ [E2 _]]]]. rewrite E2 in Hk.
+        apply FP_keys_sub in Hk. destruct Hk as [Hk1 Hk2]. apply filter_In. split; [exact Hk1|].
+        apply (knonzero_iff k (P_key_len k Hk1)).
+        + destruct HV as [_ [_ HF]]. rewrite Forall_forall in HF. apply HF. exact Hk1.
+        + exists i. split; assumption.
+      - intros H. apply filter_In in H. destruct H as [Hk1 Hk2]. right.
+        apply (knonzero_iff k (P_key_len k Hk1)) in Hk2;
+          [|destruct HV as [_ [_ HF]]; rewrite Forall_forall in HF; apply HF; exact Hk1].
+        destruct Hk2 as [i [Hi Hp]]. destruct (Hcover i Hi) as [o [Ho [E _]]].
+        destruct (Forall2_In_l _ _ _ o Hsc2 Ho) as [s [Hs [E2 _]]]. exists s. split; [exact Hs|].
+        rewrite E2, E. apply in_map_iff in Hk1. destruct Hk1 as [[k' p] [E3 Hkp]]. cbn in E3. subst k'.
+        apply in_map_iff. exists (k, p). split; [reflexivity|]. apply filter_In. split; [exact Hkp|].
+        apply Z.ltb_lt. exact Hp. }
+    (* total *)
+    assert (Htot : Qred (qsum (dvals (merge sc))) == nonzero_mass P / SS 0).
+    { rewrite Qred_correct, (Forall_dvals Fv _ HmF).
+      rewrite (qsum_map_set_eq Fv (dkeys (merge sc)) (filter knonzero (dkeys P)) HmN); [apply nonzero_mass_Fv| |exact Hkeys].
+      apply NoDup_filter. apply HV. }
+    pose proof (Qpos_neq _ nonzero_mass_pos) as Hm0.
+    pose proof (Qpos_neq _ (SS_pos 0%nat HT)) as Hs00.
+    assert (Htot0 : ~ Qred (qsum (dvals (merge sc))) == 0).
+    { rewrite Htot. intros E. apply Hm0. apply (Qmult_inj_r _ _ (/ SS 0)).
+      - intros E2. apply Hs00. rewrite <- (Qinv_involutive (SS 0)), E2. reflexivity.
+      - unfold Qdiv in E. rewrite E. ring. }
+    unfold renormalise.
+    destruct (merge sc) as [|x m'] eqn:Em.
+    { exfalso. assert (H : In kstar (dkeys [])) by (apply Hkeys; apply filter_In; split; [apply Hstar|apply kstar_nonzero]). destruct H. }
+    rewrite <- Em in *. apply Qeq_bool_false in Htot0 as Hb. rewrite Hb.
+    eexists. split; [reflexivity|].
+    set (tot := Qred (qsum (dvals (merge sc)))) in *.
+    assert (HresF : Forall (fun kv => snd kv == dgetq P (fst kv) / nonzero_mass P) (dmapv (fun v => Qred (v / tot)) (merge sc))).
+    { unfold dmapv. apply Forall_forall. intros kv Hkv. apply in_map_iff in Hkv. destruct Hkv as [[k v] [<- Hkv]].
+      cbn [fst snd]. rewrite Qred_correct. rewrite Forall_forall in HmF. specialize (HmF (k, v) Hkv).
+      unfold Fent, Fv in HmF. cbn [fst snd] in HmF. rewrite HmF, Htot. field. split; assumption. }
+    split; [apply Qle_refl|]. split; [rewrite dkeys_dmapv; exact HmN|]. split.
+    - intros k. rewrite dkeys_dmapv, spec_inverse_keys. apply Hkeys.
+    - intros k. apply Qabs_zero_le; [apply Qle_refl|].
+      destruct (in_dec (list_eq_dec Z.eq_dec) k (dkeys (merge sc))) as [HI|HI].
+      + rewrite (Forall_dgetq (fun k => dgetq P k / nonzero_mass P) _ k HresF) by (rewrite dkeys_dmapv; exact HI).
+        rewrite (Forall_dgetq (fun k => dgetq P k / nonzero_mass P) _ k spec_inverse_ent); [reflexivity|].
+        rewrite spec_inverse_keys. apply Hkeys. exact HI.
+      + rewrite dgetq_notin by (rewrite dkeys_dmapv; exact HI).
+        rewrite dgetq_notin; [reflexivity|]. rewrite spec_inverse_keys. intros H. apply HI, Hkeys, H.
+  Qed.
+End Inverse.
